@@ -27,7 +27,8 @@ pub struct Cfg {
 
 #[derive(Clone, Debug)]
 pub enum Op {
-    Enter,
+    /// request an entry carrying `batch` tokens (the isolation rule counts them)
+    Enter(u32),
     Complete { i: usize, err: bool },
     Advance(u64),
 }
@@ -171,9 +172,13 @@ impl Subject for C03 {
         // default: complete the oldest entry with an error if one is open, else enter
         if !self.open.is_empty() {
             v.push(Op::Complete { i: 0, err: true });
-            v.push(Op::Enter);
+            v.push(Op::Enter(1));
         } else {
-            v.push(Op::Enter);
+            v.push(Op::Enter(1));
+        }
+        if self.cfg.isolation {
+            // exceeds the isolation threshold even with nothing in flight
+            v.push(Op::Enter(3));
         }
         for i in 0..self.open.len().min(3) {
             if i > 0 {
@@ -201,13 +206,13 @@ impl Subject for C03 {
                 advance_ms(*d);
                 Ok(())
             }
-            Op::Enter => {
+            Op::Enter(batch) => {
                 if self.open.len() >= 3 {
                     return Ok(());
                 }
                 // reference: isolation first (slot order 3000 < 5000); the breaker slot is consulted
                 // even if an earlier slot already rejected the entry
-                let iso_block = self.cfg.isolation && !self.open.is_empty();
+                let iso_block = self.cfg.isolation && self.open.len() as u32 + batch > 1;
                 let mut probes = vec![];
                 let mut cb_block = false;
                 for &k in &self.order {
@@ -234,7 +239,7 @@ impl Subject for C03 {
                         self.models[k].probe_rejected(&mut self.mlog);
                     }
                 }
-                match build(RES, TrafficType::Outbound, 1) {
+                match build(RES, TrafficType::Outbound, *batch) {
                     Built::Ok(e) => {
                         if !expect_ok {
                             return Err(format!("admitted: request admitted at t=+{} although {} rejects it", t - T0_MS, if cb_block { "an Open/Half-Open breaker" } else { "the isolation rule" }));
@@ -335,10 +340,10 @@ pub fn configs(thorough: bool) -> Vec<Cfg> {
         (r(Strat::SlowRequestRatio, 0, 1.0, 4, 500), r(Strat::ErrorCount, 0, 2.0, 1, 500)),
     ];
     for (a, b) in pairs {
+        // both orders: the order in which the slot consults the breakers follows the rule set's
+        // iteration order
         v.push(Cfg { rules: vec![a.clone(), b.clone()], isolation: false, phase: 250 });
-        if thorough {
-            v.push(Cfg { rules: vec![b, a], isolation: false, phase: 0 });
-        }
+        v.push(Cfg { rules: vec![b, a], isolation: false, phase: 0 });
     }
     for strat in [Strat::ErrorCount, Strat::ErrorRatio, Strat::SlowRequestRatio] {
         v.push(Cfg { rules: vec![r(strat, 1, if strat == Strat::ErrorCount { 1.0 } else { 0.5 }, 1, 500)], isolation: true, phase: 1 });
